@@ -12,6 +12,7 @@
 package c12
 
 import (
+	"context"
 	"net/url"
 	"strings"
 
@@ -445,4 +446,58 @@ func ZZ_C12_confine_reconfigured() {
 	}
 	p2.confined(m, scopes, aud)
 	zz.Cover("reconfigured:second-request-accepted-by-the-new-policy", true)
+}
+
+// ---- a configuration whose answers depend on the context of the call (multi-tenant deployments)
+
+type tenantKey struct{}
+
+type tenantConfig struct {
+	*fosite.Config
+	tenant *policy
+}
+
+func (c *tenantConfig) GetScopeStrategy(ctx context.Context) fosite.ScopeStrategy {
+	if ctx.Value(tenantKey{}) != nil {
+		return c.tenant.scopeStrategy
+	}
+	return c.Config.GetScopeStrategy(ctx)
+}
+
+func (c *tenantConfig) GetAudienceStrategy(ctx context.Context) fosite.AudienceMatchingStrategy {
+	if ctx.Value(tenantKey{}) != nil {
+		return c.tenant.audStrategy
+	}
+	return c.Config.GetAudienceStrategy(ctx)
+}
+
+// ZZ_C12_confine_tenant_context: the provider's own checks (device authorization endpoint; audience of the
+// authorization endpoint) ask the configuration with the context OF THE CALL - the one an application uses to
+// select a tenant - not with some other context (the HTTP request carries a plain background context here).
+func ZZ_C12_confine_tenant_context() {
+	base, tenant := &policy{}, &policy{}
+	w := world.New(world.Options{
+		Extra: []compose.Factory{compose.RFC8628DeviceFactory, compose.RFC8628DeviceAuthorizationTokenFactory},
+		Tweak: func(cfg *fosite.Config) {
+			cfg.ScopeStrategy = base.scopeStrategy
+			cfg.AudienceMatchingStrategy = base.audStrategy
+			cfg.DeviceVerificationURL = "https://as.example/device"
+		},
+	})
+	clientAud = []string{"https://api.example/v1"}
+	w.Provider.(*fosite.Fosite).Config = &tenantConfig{Config: w.Cfg, tenant: tenant}
+	ctx := context.WithValue(w.Ctx, tenantKey{}, "tenant-1")
+	scopes, aud := pick()
+	form := url.Values{"client_id": {"c1"}, "client_secret": {world.Secret1}, "scope": {strings.Join(scopes, " ")}}
+	if len(aud) > 0 {
+		form.Set("audience", strings.Join(aud, " "))
+	}
+	m := tenant.mark()
+	_, err := w.Provider.NewDeviceRequest(ctx, world.Post(form))
+	zz.Assert(len(base.scope) == 0 && len(base.aud) == 0, "tenant context: the policy of another context is not consulted")
+	if !outcome(err) {
+		return
+	}
+	tenant.confined(m, scopes, aud)
+	zz.Cover("tenant-context:accepted-by-the-tenant-policy", true)
 }
